@@ -376,7 +376,7 @@ pub fn judge_c12(game: &Game, acc: &mut Acc, runno: u64, z: &ZobristHasher) {
             Some(i) => *i,
             None => continue,
         };
-        let completed = refr.stopped || (!refr.stopped && refr.panicked.is_none()) || refr.lines.iter().any(|(_, l)| crate::verif_seam::info_depth(l).map(|x| x > d).unwrap_or(false));
+        let completed = (refr.stopped && !refr.capped) || (!refr.stopped && refr.panicked.is_none()) || refr.lines.iter().any(|(_, l)| crate::verif_seam::info_depth(l).map(|x| x > d).unwrap_or(false));
         if !completed {
             continue;
         }
@@ -598,7 +598,7 @@ pub fn judge_c11(game: &Game, solver_bound: u32, acc: &mut Acc, runno: u64, z: &
     if ended_by_itself {
         acc.count("c11_search_returned_by_itself_under_unlimited_clock");
     }
-    let iter_done = |d: u32| ended_by_itself || refr.stopped && d <= depth || (0..n).any(|i| depth_of(i) > d);
+    let iter_done = |d: u32| ended_by_itself || (refr.stopped && !refr.capped && d <= depth) || (0..n).any(|i| depth_of(i) > d);
     let mut class = "other";
     // (1) a mate in one is played once iteration 1 has finished
     if can_mate_1 {
@@ -768,7 +768,7 @@ pub fn judge_c10_search(game: &Game, want: u32, acc: &mut Acc, runno: u64, z: &Z
     acc.count(&format!("c10_roots_with_drawing_move_count_{}", want));
     let scen = json!({"family": "SB", "check": "C10", "start_fen": game.start.fen(), "moves": game.moves_text(), "want": want});
     for d in 1..=depth {
-        let completed = refr.stopped || (!refr.stopped && refr.panicked.is_none()) || refr.lines.iter().any(|(_, l)| crate::verif_seam::info_depth(l).map(|x| x > d).unwrap_or(false));
+        let completed = (refr.stopped && !refr.capped) || (!refr.stopped && refr.panicked.is_none()) || refr.lines.iter().any(|(_, l)| crate::verif_seam::info_depth(l).map(|x| x > d).unwrap_or(false));
         if !completed {
             continue;
         }
